@@ -597,10 +597,12 @@ def decode_jobs(ir_path, tier, solver_ms):
                 if tier == "quick":
                     ks = sorted({1, 2, min(len(digits), cap)})
                 else:
-                    # whole digit string for hexadecimal; binary up to 24 free digits (40 free binary digits of a
-                    # 64-bit type take ~20 min per query) plus the whole string where it has at most 32 digits
-                    full = len(digits) if (digits and (lim.lstrip("-")[:2] == "0x" or len(digits) <= 32)) else 0
-                    ks = sorted(set(range(1, min(len(digits), 24) + 1)) | ({full} if full else set()))
+                    # measured under load with a 600 s cap: the negative path stays decidable up to 12 free digits,
+                    # positive binary up to 20, positive hexadecimal for the whole digit string
+                    neg = lim.startswith("-")
+                    is_hex = lim.lstrip("-")[:2] == "0x"
+                    top = 12 if neg else (len(digits) if is_hex else 20)
+                    ks = sorted(set(range(1, min(len(digits), top) + 1)))
             else:
                 ks = range(1, min(ktail, len(digits) - 1) + 1)
             for k in ks:
@@ -624,8 +626,8 @@ def roundtrip_jobs(ir_path, tier, solver_ms):
                 continue  # outside the bound: the 10^k chain (see "outside")
             for grouping in (0, 1):
                 for lo, hi in digit_ranges(ty, base):
-                    if tier == "quick" and base == 2 and bits == 64 and lo < 0 and -hi >= (1 << 24):
-                        continue  # negative 64-bit binary beyond 24 digits: 15-140 s per query, thorough tier only
+                    if base == 2 and bits == 64 and lo < 0 and -hi >= (1 << (24 if tier == "quick" else 40)):
+                        continue  # negative 64-bit binary beyond 24 (quick) / 40 (thorough) digits: minutes per query
                     jobs.append((job_roundtrip, (ir_path, ty, base, grouping, lo, hi, solver_ms)))
     return jobs
 
@@ -705,7 +707,7 @@ def main(tier):
                                         "k <= %d for decimal" % (" and binary" if tier != "quick" else "; k <= 16 for binary",
                                                                   4 if tier == "quick" else 6),
             "roundtrip": "every value of every type for base 2 and 16 (with and without digit grouping), split by digit count"
-                         + ("; negative 64-bit values in base 2 only down to -2^24" if tier == "quick" else "")
+                         + "; negative 64-bit values in base 2 only down to -2^%d (and the lowest value itself)" % (24 if tier == "quick" else 40)
                          + "; base 10 for the 8- and 16-bit types",
             "outside": "decimal texts with more than the stated number of free characters (the 10^k multiplication chain is beyond "
                        "the bit-vector solvers: 7 free digits take 40-150 s, 10 time out in z3 and cvc5, also with "
